@@ -35,6 +35,10 @@ type GenConfig struct {
 	// by flattening the expression coincide) but denote different terminal sets.
 	CollidingSets bool
 
+	// Targets makes about half of the grammars use the cc or ts target header
+	// (with {type} annotations on some terminals and nonterminals).
+	Targets bool
+
 	HasError   bool
 	ModelOnly  bool // only what syntax.Model can carry without the loader (no sets, no opt refs, no commands)
 	RRLists    bool
@@ -145,6 +149,28 @@ func Generate(r *rand.Rand, cfg *GenConfig) *Grammar {
 	}
 	if cfg.CollidingSets && r.Intn(3) == 0 {
 		x.collidingSets()
+	}
+	if cfg.Targets {
+		switch r.Intn(10) {
+		case 0, 1, 2:
+			g.Target = "cc"
+		case 3, 4:
+			g.Target = "ts"
+		}
+		if g.Target != "" {
+			types := map[string][]string{"cc": {"int", "std::string", "int"}, "ts": {"number", "string", "number"}}[g.Target]
+			g.TermTypes = make([]string, len(g.Terms))
+			for i := range g.Terms {
+				if r.Intn(2) == 0 {
+					g.TermTypes[i] = types[r.Intn(len(types))]
+				}
+			}
+			for _, n := range g.Nonterms {
+				if r.Intn(2) == 0 && !IsTopSet(n) {
+					n.Type = types[r.Intn(len(types))]
+				}
+			}
+		}
 	}
 	g.Finish()
 	return g
